@@ -139,15 +139,65 @@ def plane_fn_rules(rep, prog, planes):
         if not ok:
             rep.violate("C03.T2", "T2|ctor-outcode", b.where(bi, si),
                         "ClipVert::new does not fill `outcode` from view_frustum::outcode of the position it stores (%s)" % T.show(oc_t), config=cfg)
-    # outcode() sums the per-plane outcodes of PLANES for the same point
+    # outcode(pt) = sum of the bits of exactly those table planes whose signed distance to pt is > 0 — decided by
+    # enumerating every combination of the comparisons the function makes on a symbolic point (replay forking)
+    from . import symalg as S
+    from fractions import Fraction
     of = prog.body("retrofire_core::render::clip::view_frustum::outcode")
-    fam = prog.family(of.path)
-    per_plane = sum(1 for b in fam for _bi, t in b.calls(lambda c: facts.callee_matches(c, "ClipPlane::outcode")))
-    sums = sum(1 for b in fam for _bi, t in b.calls(lambda c: facts.callee_matches(c, "Iterator::sum", "Iterator::fold")))
-    uses_planes = any("PLANES" in repr(T.Slicer(b).operand(a)) for b in fam for _bi, t in b.calls() for a in t["args"])
-    rep.inst("C03.T2", "view_frustum::outcode = sum over PLANES of plane.outcode(pt): per-plane calls=%d, sum/fold=%d, iterates PLANES=%s" % (per_plane, sums, uses_planes), config=cfg)
-    if not (per_plane >= 1 and sums >= 1 and uses_planes):
-        rep.violate("C03.T2", "T2|outcode-sum", of.where(), "view_frustum::outcode is not a sum of ClipPlane::outcode over PLANES", config=cfg)
+
+    def run(orc):
+        it = S.interp(prog, oracle=orc)
+        return it.call_body(of, [S.ref_to(S.vector(["x", "y", "z", "w"]))])
+    try:
+        outs = S.explore(run, max_paths=256)
+    except (A.Undecided, A.Panic) as e:
+        raise common.Infra("C03.T2: view_frustum::outcode could not be evaluated symbolically (%s)" % e)
+    table = {}
+    for vec, bit in planes:
+        poly = {(n,): Fraction(c) for n, c in zip("xyzw", vec) if c}
+        table[tuple(sorted(poly.items()))] = bit
+    bad_all = []
+    for trace, r in outs:
+        want = 0
+        seen = set()
+        for op, a, b, ans in trace:
+            try:
+                k = tuple(sorted(S.to_poly(a).items()))
+            except S.NotPolynomial:
+                k = None
+            if op == "Gt" and b == ("f", 0.0) and k in table and k not in seen:
+                seen.add(k)
+                want += table[k] if ans else 0
+            # any other comparison may be made, but must not change the result (checked below on every path)
+        if len(seen) != len(table):
+            bad_all.append(("only %d of the %d table planes are tested" % (len(seen), len(table)), trace))
+        elif r != want:
+            bad_all.append(("the result is %s where the bits of the planes the point is outside of sum to %d" % (r if isinstance(r, int) else S.fmt_trace([("Eq", r, ("f", 0.0), True)])[3:-6], want), trace))
+    # a combination of comparison outcomes may be infeasible (left and right both outside needs w < 0 ...): only a
+    # combination that some concrete point realises counts against the code
+    witness = None
+    if bad_all:
+        grid = (-2.0, -1.0, -0.5, 0.0, 0.5, 1.0, 2.0)
+        for why, trace in bad_all:
+            for pt in itertools.product(grid, repeat=4):
+                point = dict(zip("xyzw", pt))
+                try:
+                    if S.trace_holds(trace, point):
+                        witness = (why, trace, point)
+                        break
+                except S.NotNumeric:
+                    break
+            if witness:
+                break
+        if not witness:
+            raise common.Infra("C03.T2: view_frustum::outcode deviates from the plane table on %d comparison combination(s) (%s), none of which a sample point realises; "
+                               "rule needs re-confirmation" % (len(bad_all), bad_all[0][0]))
+    rep.inst("C03.T2", "view_frustum::outcode evaluated on a symbolic point over %d combinations of its comparisons: %s"
+             % (len(outs), "FAILS" if witness else "equals the sum of the bits of the planes with signed distance > 0 in each"), config=cfg)
+    rep.floor("C03.T2.outcode.%s" % cfg, len(outs), 64, "outcode comparison combinations")
+    if witness:
+        rep.violate("C03.T2", "T2|outcode-sum", of.where(),
+                    "view_frustum::outcode is not the sum over PLANES of `signed distance > 0` bits: %s, e.g. for the clip-space point %s" % (witness[0], witness[2]), config=cfg)
 
 
 def status_rules(rep, prog):
